@@ -110,6 +110,12 @@ def manifold_frame(ob, d, ttm):
     ex = ob.ex
     x = ob.tt('x', d, ttm=ttm, dtype='float64')
     z = ob.tt('z', d, ttm=ttm, N=x.N_, M=x.M_, dtype='float64')
+    # precondition of the operation (C16): x has minimal ranks -- neither orthogonalisation sweep shrinks a rank
+    for k in range(1, d):
+        nl = x.N_[k - 1] * (x.M_[k - 1] if ttm else 1)
+        nr = x.N_[k] * (x.M_[k] if ttm else 1)
+        ex.assume(x.R_[k] <= x.R_[k - 1] * nl)
+        ex.assume(x.R_[k] <= nr * x.R_[k + 1])
     f = ex.module('torchtt.manifold').env['riemannian_projection']
     r = ex.call(f, [x, z])
     ob.wf(r)
